@@ -7,6 +7,7 @@ import (
 	"encoding/binary"
 	"encoding/gob"
 	"fmt"
+	"math"
 	"math/big"
 )
 
@@ -127,6 +128,13 @@ func gobSources(tier string) []*Dec {
 				out = append(out, mkSpecial(f, n, p, uint8(p%6)).Build())
 			}
 		}
+	}
+	// precisions at the top of the uint32 range (word-count arithmetic must not wrap)
+	for _, p := range []uint32{math.MaxUint32, math.MaxUint32 - 1, math.MaxUint32 - 17, math.MaxUint32 - 18, math.MaxUint32 - 19, 1 << 31} {
+		o := mkInt64(-12345, 3, p, ToZero)
+		out = append(out, o.Build())
+		o2 := mkWords(false, []uint64{BW - 1, BW - 1}, -7, p, ToNearestAway)
+		out = append(out, o2.Build())
 	}
 	// Decimals whose mantissa is longer than the precision needs (extra low zero words): obtained by
 	// decoding a valid encoding extended by whole zero words, which denotes the same value
